@@ -163,7 +163,7 @@ pub fn c07(ctx: &Ctx) -> Report {
         s.max_sends = 2;
         s.send = vec![(0, Seal::Sha1, 0), (0, Seal::Sha256, 0)];
         s.poll_whens = vec![When::Wake];
-        s.resp = vec![(2, Auth::None, 0), (2, Auth::Sha1(0), 0), (2, Auth::Sha1(1), 0), (2, Auth::Sha1(3), 0), (2, Auth::Sha256(3), 0), (3, Auth::Sha256(1), 0)];
+        s.resp = vec![(2, Auth::None, 0), (2, Auth::Sha1(0), 0), (2, Auth::Sha1(1), 0), (2, Auth::Sha1(3), 0), (2, Auth::Sha256(3), 0), (3, Auth::Sha256(1), 0), (2, Auth::Sha256Trunc(1), 0), (2, Auth::Sha256Trunc(3), 0), (2, Auth::Sha256Flipped(1), 0)];
         s.set_remote = vec![1, 3];
         s.set_local = vec![0, 3];
         runs.push(SliceRun { slice: s, depth: ctx.tier.pick(6, 8) });
